@@ -23,6 +23,8 @@ def make_thread(c, name, op, slot):
         v = OrderView(L, o)
         c.domain.append(S.Not(S.AddOvf(v.displayed, v.hidden)))
         c.supplied.append(S.Add(v.displayed, v.hidden))
+        if c.cube.get('positive_quantities'):
+            c.domain.append(S.Not(S.Eq(v.displayed, S.bv(0, 64))))
         return Thread(name, op, {'order': o})
     if op == 'M':
         return Thread(name, op, {'q': inp.qty('q%s' % name)})
@@ -205,16 +207,26 @@ def ob_stats(P):
     c, h, L = P.c, P.c.h, P.c.L
     b = h.level_parts(P.pre_level)['stats']
     a = h.level_parts(P.final_level)['stats']
+    pre = h.level_parts(P.pre_level)['resting']
+    fin = h.level_parts(P.final_level)['resting']
     d = {f: S.bv(0, 64) for f in ('orders_added', 'orders_removed', 'quantity_executed', 'value_executed')}
+    filled = []
     for t in P.threads:
         if t.op == 'A':
             d['orders_added'] = S.Add(d['orders_added'], S.bv(1, 64))
-        elif t.op == 'C':
-            some, _, _ = upd_result(t)
-            d['orders_removed'] = S.Add(d['orders_removed'], S.B2BV(some, 64))
         elif t.op == 'M':
-            for v, tx in match_txs(L, t)[0]:
+            txs, mr = match_txs(L, t)
+            for v, tx in txs:
                 d['quantity_executed'] = S.Add(d['quantity_executed'], S.Ite(v, tx['quantity'], S.bv(0, 64)))
+            fl = mr['filled_order_ids']
+            filled += [(S.Ult(S.bv(i, 64), fl.length), x) for i, x in enumerate(fl.cells)]
+    # orders removed by a cancel = orders that were in the book (or were added) and are gone without having been filled
+    for idv in all_ids(P):
+        was = S.Or([S.And(occ, veq(key, idv)) for occ, key, o in pre] +
+                   [S.TRUE for t in P.threads if t.op == 'A' and veq(OrderView(L, t.params['order']).id, idv) is S.TRUE])
+        still = S.Or([S.And(occ, veq(key, idv)) for occ, key, o in fin])
+        was_filled = S.Or([S.And(v, veq(x, idv)) for v, x in filled])
+        d['orders_removed'] = S.Add(d['orders_removed'], S.B2BV(S.And(was, S.Not(still), S.Not(was_filled)), 64))
     d['value_executed'] = S.Mul(d['quantity_executed'], h.P)
     good = S.And([S.Eq(a[f], S.Add(b[f], d[f])) for f in d])
     return {'name': 'quiescence: the four statistics counters moved by exactly the events of both threads',
